@@ -156,6 +156,9 @@ func (fr *frame) instr(in ssa.Instruction, st *State, reach string) {
 		elem := x.Addr.Type().Underlying().(*types.Pointer).Elem()
 		pl := fr.placeOf(addr, elem)
 		fr.nilCheck(pl, reach, "store")
+		if pl.Global != "" && fr.fn.Name() != "init" {
+			ft.addObl(fr, "global-write", fr.tag+strings.TrimPrefix(pl.Global, "G|"+repoPrefix+"/"), reach, "false", "assigns a package-level variable (hidden state / race)", []string{"C09", "C20"}, nil)
+		}
 		v := fr.val(x.Val)
 		fr.store(pl, fr.asValue(v, st), st)
 		if v.DynT != nil || v.Clo != nil {
@@ -346,6 +349,9 @@ func (fr *frame) unop(x *ssa.UnOp, st *State, reach string) {
 		elem := x.X.Type().Underlying().(*types.Pointer).Elem()
 		pl := fr.placeOf(addr, elem)
 		fr.nilCheck(pl, reach, "load")
+		if pl.Global != "" && ft.g.writtenGlobals()[pl.Global] {
+			ft.addObl(fr, "global-read", fr.tag+strings.TrimPrefix(pl.Global, "G|"+repoPrefix+"/"), reach, "false", "reads a package-level variable that some function assigns (hidden state / race)", []string{"C09", "C20"}, nil)
+		}
 		s := ft.g.reg.SortOf(elem)
 		c := ft.fresh("ld_"+x.Name(), s)
 		ft.fact("(= " + c + " " + ft.load(pl, st) + ")")
